@@ -1,0 +1,108 @@
+//go:build verif
+
+package untyped
+
+// Contract file: comments only, parsed by /verif/cmd/govc (see /verif/DESIGN.md §2.2).
+// It contains no executable code; without the build tag it is not even compiled.
+
+// verify: nil exactly when the registrations and the expectations are the same set of names.
+//@ func (*API).verify
+//@ watch SS = call sort.Strings
+//@ uses memUpTo.hit, memUpTo.step, memUpTo.mono, memUpTo.empty
+//@ requires arrayof(registrations) != arrayof(expectations)
+//@ ensures [C19:exact] result == nil <==> forall v string :: old(memStr(registrations, v)) <==> old(memStr(expectations, v))
+//@ spec regUpTo(hi, v) := memUpTo(elems(registrations), offof(registrations), hi, v)
+//@ spec expUpTo(hi, v) := memUpTo(elems(expectations), offof(expectations), hi, v)
+//@ loop 0 invariant calls(SS) == 2 && fresh(expected) && fresh(seen) && expected != seen
+//@ loop 0 invariant forall v string :: memStr(registrations, v) <==> old(memStr(registrations, v))
+//@ loop 0 invariant forall v string :: memStr(expectations, v) <==> old(memStr(expectations, v))
+//@ loop 0 invariant forall v string :: in(v, expected) <==> expUpTo(rangeindex, v)
+//@ loop 0 invariant forall v string :: !in(v, seen)
+//@ loop 1 invariant calls(SS) == 2 && fresh(expected) && fresh(seen) && expected != seen && (unspecified == nil || fresh(unspecified))
+//@ loop 1 invariant forall v string :: memStr(registrations, v) <==> old(memStr(registrations, v))
+//@ loop 1 invariant forall v string :: memStr(expectations, v) <==> old(memStr(expectations, v))
+//@ loop 1 invariant forall v string :: in(v, expected) <==> memStr(expectations, v)
+//@ loop 1 invariant forall v string :: in(v, seen) <==> regUpTo(rangeindex, v)
+//@ loop 1 invariant len(unspecified) == 0 ==> forall v string :: regUpTo(rangeindex, v) ==> in(v, expected)
+//@ loop 1 invariant len(unspecified) > 0 ==> exists w string :: regUpTo(rangeindex, w) && !in(w, expected)
+//@ loop 2 invariant calls(SS) == 2 && fresh(expected) && fresh(seen) && expected != seen
+//@ loop 2 invariant forall v string :: memStr(registrations, v) <==> old(memStr(registrations, v))
+//@ loop 2 invariant forall v string :: memStr(expectations, v) <==> old(memStr(expectations, v))
+//@ loop 2 invariant forall v string :: in(v, seen) <==> memStr(registrations, v)
+//@ loop 2 invariant len(unspecified) == 0 ==> forall v string :: memStr(registrations, v) ==> memStr(expectations, v)
+//@ loop 2 invariant len(unspecified) > 0 ==> exists w string :: memStr(registrations, w) && !memStr(expectations, w)
+//@ loop 2 invariant forall v string :: in(v, expected) <==> memStr(expectations, v) && !(in(v, seen) && mapidx(v) < mappos)
+//@ loop 3 invariant calls(SS) == 2
+//@ loop 3 invariant forall v string :: memStr(registrations, v) <==> old(memStr(registrations, v))
+//@ loop 3 invariant forall v string :: memStr(expectations, v) <==> old(memStr(expectations, v))
+//@ loop 3 invariant len(unspecified) == 0 ==> forall v string :: memStr(registrations, v) ==> memStr(expectations, v)
+//@ loop 3 invariant len(unspecified) > 0 ==> exists w string :: memStr(registrations, w) && !memStr(expectations, w)
+//@ loop 3 invariant forall v string :: in(v, expected) <==> memStr(expectations, v) && !memStr(registrations, v)
+//@ loop 3 invariant len(unregistered) == mappos && 0 <= mappos && mappos <= mapcard && fresh(unregistered)
+
+// validate: the five categories are checked in a fixed order, each against what the
+// analyzed spec requires; the first failing category is returned.
+//@ func (*API).validate
+//@ watch VF = call (*API).verify
+//@ watch RC = call (*github.com/go-openapi/analysis.Spec).RequiredConsumes
+//@ watch RP = call (*github.com/go-openapi/analysis.Spec).RequiredProduces
+//@ watch OM = call (*github.com/go-openapi/analysis.Spec).OperationMethodPaths
+//@ watch RS = call (*github.com/go-openapi/analysis.Spec).RequiredSecuritySchemes
+//@ watch SW = call (*github.com/go-openapi/loads.Document).Spec
+//@ assume after SW ret(SW,0,0) != nil
+//@ requires d != nil && d.analyzer != nil && d.spec != nil
+//@ nooverflow
+//@ loop 0 invariant (consumes != nil && unescaped(consumes))
+//@ loop 1 invariant distinctarrays(consumes, produces) && (consumes != nil && unescaped(consumes)) && (produces != nil && unescaped(produces))
+//@ loop 2 invariant distinctarrays(consumes, produces, authenticators) && (consumes != nil && unescaped(consumes)) && (produces != nil && unescaped(produces)) && (authenticators != nil && unescaped(authenticators))
+//@ loop 3 invariant distinctarrays(consumes, produces, authenticators, operations) && (consumes != nil && unescaped(consumes)) && (produces != nil && unescaped(produces)) && (authenticators != nil && unescaped(authenticators)) && (operations != nil && unescaped(operations))
+//@ loop 4 invariant distinctarrays(consumes, produces, authenticators, operations) && (consumes != nil && unescaped(consumes))
+//@ loop 4 invariant (produces != nil && unescaped(produces))
+//@ loop 4 invariant (authenticators != nil && unescaped(authenticators))
+//@ loop 4 invariant (operations != nil && unescaped(operations))
+//@ loop 5 invariant distinctarrays(consumes, produces, authenticators, operations, definedAuths) && (consumes != nil && unescaped(consumes)) && (produces != nil && unescaped(produces)) && (authenticators != nil && unescaped(authenticators)) && (operations != nil && unescaped(operations)) && (definedAuths != nil && unescaped(definedAuths))
+//@ ensures [C19:order] calls(VF) >= 1 && arg(VF,0,1) == "consumes" && arg(VF,0,3) == ret(RC,0,0) && (calls(VF) >= 2 ==> arg(VF,1,1) == "produces" && arg(VF,1,3) == ret(RP,0,0) && ret(VF,0,0) == nil) && (calls(VF) >= 3 ==> arg(VF,2,1) == "operation" && arg(VF,2,3) == ret(OM,0,0) && ret(VF,1,0) == nil) && (calls(VF) >= 4 ==> arg(VF,3,1) == "auth scheme" && arg(VF,3,3) == ret(RS,0,0) && ret(VF,2,0) == nil) && (calls(VF) >= 5 ==> arg(VF,4,1) == "security definitions" && arg(VF,4,3) == ret(RS,0,0) && ret(VF,3,0) == nil) && calls(VF) <= 5
+//@ ensures [C19:first] result != nil ==> result == ret(VF,calls(VF)-1,0)
+//@ ensures [C19:all] result == nil ==> calls(VF) == 5 && ret(VF,4,0) == nil
+
+// registrations: media types are stored lower-cased, methods upper-cased
+//@ func (*API).RegisterConsumer
+//@ watch TL = call strings.ToLower
+//@ requires d != nil
+//@ ensures [C19:consumer] calls(TL) == 1 && arg(TL,0,0) == mediaType && d.consumers != nil && in(ret(TL,0,0), d.consumers) && d.consumers[ret(TL,0,0)] == handler && forall k string :: k != ret(TL,0,0) && old(d.consumers) != nil ==> (in(k, d.consumers) <==> old(in(k, d.consumers)))
+
+//@ func (*API).RegisterProducer
+//@ watch TL = call strings.ToLower
+//@ requires d != nil
+//@ ensures [C19:producer] calls(TL) == 1 && arg(TL,0,0) == mediaType && d.producers != nil && in(ret(TL,0,0), d.producers) && d.producers[ret(TL,0,0)] == handler && forall k string :: k != ret(TL,0,0) && old(d.producers) != nil ==> (in(k, d.producers) <==> old(in(k, d.producers)))
+
+//@ func (*API).RegisterAuth
+//@ requires d != nil
+//@ ensures [C19:auth] d.authenticators != nil && in(scheme, d.authenticators) && d.authenticators[scheme] == handler
+
+//@ func (*API).RegisterOperation
+//@ watch TU = call strings.ToUpper
+//@ requires d != nil
+//@ ensures [C19:operation] calls(TU) == 1 && arg(TU,0,0) == method && d.operations != nil && in(ret(TU,0,0), d.operations) && in(path, d.operations[ret(TU,0,0)]) && d.operations[ret(TU,0,0)][path] == handler
+
+//@ func (*API).OperationHandlerFor
+//@ watch TU = call strings.ToUpper
+//@ requires d != nil
+//@ ensures [C19:handlerfor] result1 <==> (d.operations != nil && calls(TU) == 1 && arg(TU,0,0) == method && in(ret(TU,0,0), d.operations) && in(path, d.operations[ret(TU,0,0)]))
+//@ ensures [C19:handler] result1 ==> result0 == d.operations[ret(TU,0,0)][path]
+//@ assigns \nothing
+
+// the *For lookups are exact-key projections of the registries
+//@ func (*API).ConsumersFor
+//@ requires d != nil
+//@ ensures [C19:project] result != nil && fresh(result) && forall k string :: in(k, result) <==> (in(k, d.consumers) && exists i int :: 0 <= i && i < len(mediaTypes) && mediaTypes[i] == k)
+//@ ensures [C19:values] forall k string :: in(k, result) ==> result[k] == d.consumers[k]
+//@ loop 0 invariant fresh(result) && forall k string :: in(k, result) <==> (in(k, d.consumers) && exists i int :: 0 <= i && i <= rangeindex && mediaTypes[i] == k)
+//@ loop 0 invariant forall k string :: in(k, result) ==> result[k] == d.consumers[k]
+
+//@ func (*API).ProducersFor
+//@ requires d != nil
+//@ ensures [C19:project] result != nil && fresh(result) && forall k string :: in(k, result) <==> (in(k, d.producers) && exists i int :: 0 <= i && i < len(mediaTypes) && mediaTypes[i] == k)
+//@ ensures [C19:values] forall k string :: in(k, result) ==> result[k] == d.producers[k]
+//@ loop 0 invariant fresh(result) && forall k string :: in(k, result) <==> (in(k, d.producers) && exists i int :: 0 <= i && i <= rangeindex && mediaTypes[i] == k)
+//@ loop 0 invariant forall k string :: in(k, result) ==> result[k] == d.producers[k]
